@@ -192,8 +192,21 @@ public:
 		int rc = 0;
 		guard::Fault f = guard::call([&] { rc = o.stateless ? isal_inflate_stateless(s) : isal_inflate(s); });
 		calls++;
+		if (getenv("VERIF_TRACE"))
+			fprintf(stderr, "inflate call %llu: add=%zu avail_in=%u cap=%zu -> rc=%d%s avail_in'=%u next_in+%td avail_out'=%u next_out+%td block_state=%d read_in_length=%d tmp_in_size=%d total_out=%u\n", (unsigned long long) calls, add_len, ai,
+			        out_cap, rc, f.faulted ? " FAULT" : "", s->avail_in, s->next_in - ni, s->avail_out, s->next_out - no, (int) s->block_state, s->read_in_length, (int) s->tmp_in_size, s->total_out);
 		if (f.faulted) { ci.faulted = true; ci.problem = f.describe(); return ci; }
 		ci.rc = rc;
+		if (rc < 0 || (o.stateless && rc != 0)) {
+			// after an error return (or a one-shot call that could not complete: END_INPUT / OUT_OVERFLOW) the stream is dead and no
+			// listed property promises consistent input counters; what is promised is that nothing outside
+			// [next_out, next_out + avail_out) was written
+			if (!guard::canaries_ok(outb)) ci.problem = "bytes outside [next_out, next_out+avail_out) were modified";
+			else if (s->avail_out <= ao && (size_t) (s->next_out - no) == (size_t) (ao - s->avail_out)) { ci.produced = ao - s->avail_out; out.insert(out.end(), outb.p, outb.p + ci.produced); }
+			pending.clear();
+			guard::retire(outb);
+			return ci;
+		}
 		if (s->avail_in > ai) ci.problem = pbt::fmt("avail_in grew (%u -> %u)", ai, s->avail_in);
 		else if (s->avail_out > ao) ci.problem = pbt::fmt("avail_out grew (%u -> %u): more than avail_out bytes written?", ao, s->avail_out);
 		else {
